@@ -107,6 +107,8 @@ func init() {
 		Rule: "a real session with generated small limits (dial/accept 1-4, addresses 2-20, web seed sources 1-3 / downloads 1-2, write cache 1-4 pieces, read cache 64K-1M, rate limits 8-256 KiB/s, requests in 1-20) under a swarm of 3-9 scripted peers (seeding, leeching, redialling, disconnecting), 0-5 web seeds, bad-handshake actors (silent, garbage, wrong info-hash, dribbling, closing), bursts of bogus addresses and a request flooder that stops reading; every 200 ms the monitor compares transport-level open connections per direction, concurrent web seed requests, contacted web seed sources, Stats()/SessionStats counters and every window of cumulative bytes against the configured limits; failed handshakes must be closed by the SUT; at the end the torrent is stopped and removed and every reservation must be back; non-trivial if a piece write happened or the SUT was pre-seeded; distinct = distinct event-trace hashes"}
 	props["C20"] = &propCfg{Scenarios: []scenarioRef{{"apistress", 4}, {"lifecycle", 1}, {"registry", 1}, {"transfer_byz", 1}, {"crash", 1}}, OwnsCrash: true, Level: "exploration", Race: true, QuickBudget: 150 * time.Second,
 		Rule: "the simulator is built with the Go race detector (-race); 2-5 concurrent clients use the public API (Stats, Peers, Trackers, Webseeds, Files, FileStats, Magnet, Torrent, Port/Name, AddPeer by IP and by host name, AddTracker, Announce, Start, Stop, Verify, AddTorrent+RemoveTorrent of a second torrent, ListTorrents, CompactDatabase, CleanDatabase, StartAll) and the RPC client (rainrpc over the simulated network) with seeded gaps while the torrent downloads from / uploads to scripted peers and web seeds and the session writes resume data every 0.2-3 s; every race report whose accesses are not both inside the simulator's own packages is a violation keyed by the two innermost function pairs; a call that has not returned for two simulated minutes, rain's own 'torrent does not respond' health check and any other crash are violations; non-trivial if a piece write happened; distinct = distinct event-trace hashes"}
+	props["C12"] = &propCfg{Scenarios: []scenarioRef{{"mse", 3}, {"pair", 2}, {"encpolicy", 2}}, OwnsCrash: true, Level: "exploration",
+		Rule: "(a) both ends of rain's mse.Stream over a simulated connection that fragments, delays and short-reads: offered ciphers 1/2/3, acceptor policies (RC4 first, plaintext first, only one, none), wrong key, initial payload 0..65535, pads drawn by rain from the seeded crypto/rand, then full-duplex data in random write and read chunkings; the handshake must fail on both sides or succeed on both with the acceptor's legal choice, and every byte (initial payload first) must arrive unchanged; (b) two or three real sessions with independently drawn encryption policies transfer a torrent over such a network: a session that forces a direction never writes or answers a plaintext handshake and never lists an unencrypted peer of that direction, compatible policies complete; (c) a session that forces encryption against scripted plaintext-only peers never puts a plaintext BitTorrent handshake on the wire, also not on the retry; non-trivial always (each run performs at least one handshake attempt); distinct = distinct event-trace hashes"}
 	props["C15"] = &propCfg{Scenarios: []scenarioRef{{"trackers", 1}}, Level: "exploration",
 		Rule: "1-3 torrents announcing to 1-3 tiers of scripted HTTP and UDP trackers whose reply scripts are generated (ok with any 32-bit interval / min interval or none, failure with retry-in, 4xx/5xx, garbage, oversize, no reply, delays; UDP: wrong transaction id, short, duplicate, datagram loss/duplication, connection-id expiry), down windows, start/stop/announce commands, optional seed so that 'completed' happens; every announce is checked online (info-hash, port, peer id vs handshake, counters, event discipline per run, spacing); non-trivial if more than two announces were received; distinct = distinct event-trace hashes among non-trivial runs"}
 	props["C16"] = &propCfg{Scenarios: []scenarioRef{{"trackers", 1}}, OwnsCrash: true, Level: "exploration",
